@@ -27,5 +27,5 @@ Definition model_content (c : case) : res ccas :=
 Definition denoted_content (c : case) : res ccas :=
   res_map with_initial (denote_xmi (flt_of c) (c_schema c) (c_doc c)).
 Definition check_case (c : case) : bool := same_as_obs c (model_content c) && same_as_obs c (denoted_content c).
-(* premises of C05_load_xmi_is_denotation *)
-Definition premises (c : case) : bool := reader_okb (flt_of c) (c_schema c) (c_doc c).
+(* premises of C05_load_xmi_is_denotation_general (documents with or without an _InitialView sofa) *)
+Definition premises (c : case) : bool := reader_okb0 (flt_of c) (c_schema c) (c_doc c).
